@@ -368,6 +368,8 @@ impl Variant {
     fn literal(&self, values: &[Value], types: Option<&[DataType]>) -> String {
         self.text(|s| {
             let v = &values[s.param - 1];
+            // detection demo only: VERIF_C41_PLANT=1 writes 3 where 2 was bound, in WHERE clauses
+            let v = &(if planted() && s.place.ends_with("where") && *v == Value::Int(2) { Value::Int(3) } else { v.clone() });
             match types.and_then(|t| t.get(s.param - 1)) {
                 Some(t) => typed_lit_sql(v, t),
                 None => lit_sql(v),
@@ -380,6 +382,12 @@ impl Variant {
         places.dedup();
         places.join("+")
     }
+}
+
+/// Detection demo switch (never set in a real run): `VERIF_C41_PLANT=1` makes the literal twin differ
+/// from the bound value for one construct.
+fn planted() -> bool {
+    std::env::var("VERIF_C41_PLANT").map(|v| v == "1").unwrap_or(false)
 }
 
 fn make_variant(q: &Query, sites: &[Site], shape: &str, chosen: &[(usize, usize)]) -> Variant {
